@@ -628,6 +628,10 @@ func TestC16(t *testing.T) {
 		if inflight >= 2 && round%3 == 1 {
 			idlePipelineRound(t, col, tcp, inflight, seed+int64(round), gen{rng: rand.New(rand.NewSource(seed + int64(round*100+60))), ctr: &ctr, mu: &cmu})
 		}
+		// ---- InstallSnapshot on a connection that has been used before, and one that is never answered ----
+		if round%3 == 2 {
+			idleInstallRound(t, col, tcp, seed+int64(round), gen{rng: rand.New(rand.NewSource(seed + int64(round*100+65))), ctr: &ctr, mu: &cmu})
+		}
 		// ---- connection faults (pipe transport only) ----
 		if !tcp {
 			g := gen{rng: rand.New(rand.NewSource(seed + int64(round*100+70))), ctr: &ctr, mu: &cmu}
@@ -817,4 +821,85 @@ func idlePipelineRound(t *testing.T, col *table.Collector, tcp bool, inflight in
 	p.resp.hold = T * 6 / 10
 	p.resp.mu.Unlock()
 	exchange("request answered after 0.6 timeouts, sent 0.7 timeouts after the previous exchange")
+}
+
+// idleInstallRound: the I/O timeout of an InstallSnapshot covers the whole exchange, both directions, from
+// the moment it starts - whatever the connection was used for before. (1) A plain RPC leaves a pooled
+// connection behind; 0.7 timeouts later an InstallSnapshot goes out on it whose handler answers after
+// 0.6 timeouts: a healthy exchange. An error that comes back sooner than 0.8 timeouts after the
+// InstallSnapshot started cannot be its own timeout. (2) On a fresh transport pair an InstallSnapshot whose
+// handler answers only after 6 timeouts has failed long before: getting the handler's late answer as a
+// success means no deadline was in force on the read side. Neither verdict depends on the machine's speed.
+func idleInstallRound(t *testing.T, col *table.Collector, tcp bool, seed int64, g gen) {
+	const T = 400 * time.Millisecond
+	mkReq := func() (*raft.InstallSnapshotRequest, []byte, string) {
+		tag, n := g.tag()
+		body := make([]byte, 1+g.rng.Intn(2048))
+		g.rng.Read(body)
+		return &raft.InstallSnapshotRequest{RPCHeader: g.header(tag), SnapshotVersion: 1, Term: n, LastLogIndex: n, LastLogTerm: n, Configuration: g.bytes(16), Size: int64(len(body))}, body, tag
+	}
+	old := pairTimeout
+	pairTimeout = T
+	p := newPair(t, tcp, 3, 2, true, seed, false, 0)
+	q := newPair(t, tcp, 3, 2, true, seed+1, false, 0)
+	pairTimeout = old
+	defer p.close()
+	defer q.close()
+	// (1)
+	warm := g.appendEntries(false)
+	if err := p.a.AppendEntries("B", p.addrB, warm, new(raft.AppendEntriesResponse)); err != nil {
+		p.resp.mu.Lock()
+		ans, seen := p.resp.answer[tagOf(warm)]
+		p.resp.mu.Unlock()
+		if !seen || ans.Error == nil {
+			col.Cov("inconclusive-idle-install-warmup", 1)
+			return
+		}
+	}
+	time.Sleep(T * 7 / 10)
+	p.resp.mu.Lock()
+	p.resp.hold = T * 6 / 10
+	p.resp.mu.Unlock()
+	req, body, tag := mkReq()
+	var resp raft.InstallSnapshotResponse
+	start := time.Now()
+	err := p.a.InstallSnapshot("B", p.addrB, req, &resp, bytes.NewReader(body))
+	el := time.Since(start)
+	p.resp.mu.Lock()
+	ans, seen := p.resp.answer[tag]
+	p.resp.mu.Unlock()
+	switch {
+	case err != nil && seen && ans.Error != nil:
+		col.Cov("idle-install-exchanges", 1) // the handler's own error
+	case err != nil && el < T*8/10:
+		col.Violate("error-before-timeout", "InstallSnapshot %s on a connection used 0.7 timeouts earlier, answered after 0.6 timeouts, failed %v after it started (I/O timeout %v): %v", tag, el, T, err)
+	case err != nil:
+		col.Cov("inconclusive-idle-install-slow", 1)
+	default:
+		if d := eqResp(&resp, nil, ans); d != "" {
+			col.Violate("response-altered-or-mispaired", "idle InstallSnapshot %s: %s", tag, d)
+		}
+		col.Cov("idle-install-exchanges", 1)
+	}
+	// (2)
+	q.resp.mu.Lock()
+	q.resp.hold = 6 * T
+	q.resp.mu.Unlock()
+	req2, body2, tag2 := mkReq()
+	var resp2 raft.InstallSnapshotResponse
+	done := make(chan error, 1)
+	go func() { done <- q.a.InstallSnapshot("B", q.addrB, req2, &resp2, bytes.NewReader(body2)) }()
+	select {
+	case err := <-done:
+		q.resp.mu.Lock()
+		ans2 := q.resp.answer[tag2]
+		q.resp.mu.Unlock()
+		if err == nil && ans2.Error == nil {
+			col.Violate("late-response-accepted-after-timeout", "InstallSnapshot %s was answered by its handler 6 I/O timeouts (%v each) after it was sent and still returned that answer as a success: no deadline covered the wait for the response", tag2, T)
+		} else {
+			col.Cov("unanswered-install-timed-out", 1)
+		}
+	case <-time.After(60 * time.Second):
+		col.Cov("inconclusive-unanswered-install", 1)
+	}
 }
